@@ -238,4 +238,280 @@ theorem C04_frame_synsets_end_to_end (norm : String → String) (dr : Nat) (db d
     unfold synsetData
     rw [hres o ho]
 
+open WnVerif.Doc WnVerif.Props.C01
+
+/-! ### frame, end to end, for relations, definitions, examples and counts -/
+
+theorem find?_append_of_exists {α} (p : α → Bool) (old extra : List α) (h : ∃ x ∈ old, p x = true) :
+    (old ++ extra).find? p = old.find? p := by
+  rw [List.find?_append]
+  obtain ⟨x, hx, hp⟩ := h
+  cases hf : old.find? p with
+  | none =>
+    rw [List.find?_eq_none] at hf
+    exact absurd hp (hf x hx)
+  | some y => rfl
+
+theorem filterMap_congr_mem {α β} (f g : α → Option β) : ∀ (l : List α), (∀ a ∈ l, f a = g a) → l.filterMap f = l.filterMap g := by
+  intro l
+  induction l with
+  | nil => intro _; rfl
+  | cons a t ih =>
+    intro h
+    simp only [List.filterMap_cons]
+    rw [h a List.mem_cons_self, ih (fun x hx => h x (List.mem_cons_of_mem _ hx))]
+
+theorem lookupInsert_prefix (t : List (Nat × String)) (v : String) : ∃ extra, lookupInsert t v = t ++ extra := by
+  unfold lookupInsert
+  split
+  · exact ⟨[], by simp⟩
+  · exact ⟨_, rfl⟩
+
+theorem foldl_lookupInsert_prefix (vs : List String) : ∀ (t : List (Nat × String)), ∃ extra, vs.foldl lookupInsert t = t ++ extra := by
+  induction vs with
+  | nil => intro t; exact ⟨[], by simp⟩
+  | cons v vs ih =>
+    intro t
+    obtain ⟨e1, h1⟩ := lookupInsert_prefix t v
+    obtain ⟨e2, h2⟩ := ih (lookupInsert t v)
+    exact ⟨e1 ++ e2, by simp only [List.foldl_cons]; rw [h2, h1, List.append_assoc]⟩
+
+theorem lookupName_append (t extra : List (Nat × String)) (i : Nat) (hi : i ∈ t.map (·.1)) :
+    lookupName (t ++ extra) i = lookupName t i := by
+  unfold lookupName
+  obtain ⟨x, hx, hxi⟩ := List.mem_map.mp hi
+  rw [find?_append_of_exists _ _ _ ⟨x, hx, by simp [hxi]⟩]
+
+/-- the store invariants the frame theorems need: relation rows point at existing rows -/
+structure RelFK (db : Db) : Prop where
+  synrelType : ∀ o ∈ db.synrels, o.type ∈ db.reltypes.map (·.1)
+  synrelTarget : ∀ o ∈ db.synrels, o.target ∈ db.synsets.map (·.rowid)
+  synrelLex : ∀ o ∈ db.synrels, o.lex ∈ db.lexicons.map (·.rowid)
+  synsetIli : ∀ o ∈ db.synsets, ∀ k, o.ili = some k → k ∈ db.ilis.map (·.rowid)
+
+/-- **C04, frame for synset relations, end to end**: adding any lexicon that is not in the selection
+`S` leaves `get_synset_relations` restricted to `S` — for any sources and relation types — unchanged -/
+theorem C04_frame_synset_relations_end_to_end (norm : String → String) (dr : Nat) (db db' : Db) (l : Doc.Lexicon)
+    (h : addLexicon norm dr db l = .ok db') (S : List Nat)
+    (hout : nextId (db.lexicons.map (·.rowid)) ∉ S) (fk : RelFK db)
+    (sources : List Nat) (types : List String) :
+    synsetRelations db' sources types S = synsetRelations db sources types S := by
+  obtain ⟨t⟩ := addLexicon_split norm dr db db' l h
+  obtain ⟨hT, _, rows, hrows, hF⟩ := addLexicon_synrel_table t
+  obtain ⟨yrows, iextra, hY, _, hI⟩ := C01.addLexicon_synset_tables norm dr db db' l h
+  have hlexid : t.lexid = nextId (db.lexicons.map (·.rowid)) := (insertLexicon_frame _ _ _ _ _ t.hlex).2.2.1
+  obtain ⟨hL1, _, _⟩ := C01_lexicon_row _ _ _ _ _ t.hlex
+  -- lexicons: only appended to
+  have hL : ∃ lrow, db'.lexicons = db.lexicons ++ [lrow] := by
+    let c : Ctx := ⟨t.lexid, t.extid, externalIds l⟩
+    let π : Db → List RLexicon := fun b => b.lexicons
+    have k2 : π t.d2 = π t.d1 := keepsGF_insertSynsets π l c (fun p => by keepsG_step presupStep)
+      (by keepsG_step synsetStep) (by keepsG_step piliStep) _ _ t.hsyn
+    have k3 : π t.d3 = π t.d2 := keepsGF_insertEntries π l c (by keepsG_step entryStep) _ _ t.hent
+    have k4 : π t.d4 = π t.d3 := keepsGF_insertForms π (fun _ _ => rfl) norm l c _ _ t.hform
+    have k5 : π t.d5 = π t.d4 := keepsGF_insertPronsTags π l c (fun _ _ _ => by keepsG_step pronStep)
+      (fun _ _ _ => by keepsG_step tagStep) _ _ t.hpt
+    have k6 : π t.d6 = π t.d5 := keepsGF_insertSenses π l c dr (fun _ => by keepsG_step senseStep)
+      (by keepsG_step adjStep) (fun _ => by keepsG_step countStep) _ _ t.hsen
+    have k7 : π t.d7 = π t.d6 := keepsGF_insertSbs π t.sbs c (by keepsG_step sbStep) (fun _ => by keepsG_step sbSenseStep) _ _ t.hsb
+    have k8 : π t.d8 = π t.d7 := keepsGF_insertRelations π l c (fun _ => by keepsG_step synRelStep)
+      (by keepsG_step senseRelStep) (by keepsG_step senseSynRelStep) _ _ t.hrel
+    have k9 : π db' = π t.d8 := keepsGF_insertDefsExamples π l c (fun _ => by keepsG_step defStep)
+      (fun _ => by keepsG_step senseExampleStep) (fun _ => by keepsG_step synsetExampleStep) _ _ t.hdx
+    refine ⟨⟨t.lexid, l.id, l.label, l.language, l.email, l.license, l.version, l.url, l.citation, l.logo, l.md⟩, ?_⟩
+    show π db' = _
+    rw [k9, k8, k7, k6, k5, k4, k3, k2]
+    exact hL1
+  obtain ⟨lrow, hL⟩ := hL
+  obtain ⟨textra, hTx⟩ : ∃ extra, db'.reltypes = db.reltypes ++ extra := by
+    rw [hT]; unfold updateLookups; exact foldl_lookupInsert_prefix _ _
+  rw [synsetRelations_eq, synsetRelations_eq, hrows, List.filterMap_append]
+  have hnew : rows.filterMap (relF db' sources types S) = [] := by
+    rw [List.filterMap_eq_nil_iff]
+    intro r hr
+    have hl : r.lex = t.lexid := Forall2.forall_right (fun _ _ hh => hh.1) hF r hr
+    unfold relF
+    have : inLex S r.lex = false := by
+      rw [hl, hlexid]; simpa [inLex] using hout
+    simp [this]
+  rw [hnew, List.append_nil]
+  congr 1
+  apply filterMap_congr_mem
+  intro o ho
+  unfold relF
+  have e1 : typeOk db' types o.type = typeOk db types o.type := by
+    unfold typeOk
+    rw [hTx, lookupName_append _ _ _ (fk.synrelType o ho)]
+  obtain ⟨tg, htg, htgr⟩ := List.mem_map.mp (fk.synrelTarget o ho)
+  have e2 : db'.synsets.find? (fun x => x.rowid == o.target) = db.synsets.find? (fun x => x.rowid == o.target) := by
+    rw [hY]; exact find?_append_of_exists _ _ _ ⟨tg, htg, by simp [htgr]⟩
+  have e3 : lexSpec db' o.lex = lexSpec db o.lex := by
+    unfold lexSpec
+    obtain ⟨lx, hlx, hlxr⟩ := List.mem_map.mp (fk.synrelLex o ho)
+    rw [hL, find?_append_of_exists _ _ _ ⟨lx, hlx, by simp [hlxr]⟩]
+  rw [e1, e2, e3]
+  cases hfind : db.synsets.find? (fun x => x.rowid == o.target) with
+  | none => cases typeOk db types o.type <;> rfl
+  | some tgt =>
+    have htm : tgt ∈ db.synsets := List.mem_of_find?_eq_some hfind
+    have e4 : synsetData db' tgt = synsetData db tgt := by
+      unfold synsetData
+      have : iliIdOf db' tgt.ili = iliIdOf db tgt.ili := by
+        have q : iliIdOf db' tgt.ili = iliIdOf { db with ilis := db.ilis ++ iextra } tgt.ili := by
+          unfold iliIdOf; rw [hI]
+        rw [q]; exact iliIdOf_append db iextra tgt.ili (fk.synsetIli tgt htm)
+      rw [this]
+    cases typeOk db types o.type with
+    | none => rfl
+    | some n => simp only [e4]
+
+theorem filter_append_new_outside {ρ} (old rows : List ρ) (owner lex : ρ → Nat) (x : Nat) (S : List Nat) (lexid : Nat)
+    (hout : lexid ∉ S) (hnew : ∀ r ∈ rows, lex r = lexid) :
+    (old ++ rows).filter (fun r => owner r == x && inLex S (lex r)) = old.filter (fun r => owner r == x && inLex S (lex r)) := by
+  rw [List.filter_append]
+  have : rows.filter (fun r => owner r == x && inLex S (lex r)) = [] := by
+    rw [List.filter_eq_nil_iff]
+    intro r hr
+    have : inLex S (lex r) = false := by rw [hnew r hr]; simpa [inLex] using hout
+    simp [this]
+  rw [this, List.append_nil]
+
+/-- **C04, frame for examples and counts, end to end** -/
+theorem C04_frame_examples_counts_end_to_end (norm : String → String) (dr : Nat) (db db' : Db) (l : Doc.Lexicon)
+    (h : addLexicon norm dr db l = .ok db') (S : List Nat) (hout : nextId (db.lexicons.map (·.rowid)) ∉ S) (x : Nat) :
+    synsetExamples db' x S = synsetExamples db x S ∧ senseExamples db' x S = senseExamples db x S ∧
+    senseCounts db' x S = senseCounts db x S := by
+  obtain ⟨t⟩ := addLexicon_split norm dr db db' l h
+  have hlexid : t.lexid = nextId (db.lexicons.map (·.rowid)) := (insertLexicon_frame _ _ _ _ _ t.hlex).2.2.1
+  obtain ⟨_, ⟨r2, h2, f2⟩, ⟨r3, h3, f3⟩⟩ := addLexicon_defs_tables t
+  obtain ⟨r4, h4, f4⟩ := addLexicon_counts_table t
+  rw [← hlexid] at hout
+  refine ⟨?_, ?_, ?_⟩
+  · unfold synsetExamples
+    rw [h2]
+    exact filter_append_new_outside _ _ (·.owner) (·.lex) x S t.lexid hout (Forall2.forall_right (fun _ _ hr => hr.1) f2)
+  · unfold senseExamples
+    rw [h3]
+    exact filter_append_new_outside _ _ (·.owner) (·.lex) x S t.lexid hout (Forall2.forall_right (fun _ _ hr => hr.1) f3)
+  · unfold senseCounts
+    rw [h4]
+    exact filter_append_new_outside _ _ (·.sense) (·.lex) x S t.lexid hout (Forall2.forall_right (fun _ _ hr => hr.1) f4)
+
+/-- **C04, frame for definitions, end to end** (the source-sense column must point at stored senses) -/
+theorem C04_frame_definitions_end_to_end (norm : String → String) (dr : Nat) (db db' : Db) (l : Doc.Lexicon)
+    (h : addLexicon norm dr db l = .ok db') (S : List Nat) (hout : nextId (db.lexicons.map (·.rowid)) ∉ S)
+    (hfk : ∀ d ∈ db.defs, ∀ s, d.sense = some s → s ∈ db.senses.map (·.rowid)) (x : Nat) :
+    definitions db' x S = definitions db x S := by
+  obtain ⟨t⟩ := addLexicon_split norm dr db db' l h
+  have hlexid : t.lexid = nextId (db.lexicons.map (·.rowid)) := (insertLexicon_frame _ _ _ _ _ t.hlex).2.2.1
+  obtain ⟨⟨r1, h1, f1⟩, _, _⟩ := addLexicon_defs_tables t
+  obtain ⟨_, _, srows, hs, _, _⟩ := addLexicon_sense_table t
+  rw [← hlexid] at hout
+  unfold definitions
+  rw [h1, filter_append_new_outside _ _ (·.synset) (·.lex) x S t.lexid hout (Forall2.forall_right (fun _ _ hr => hr.1) f1)]
+  apply List.map_congr_left
+  intro d hd
+  have hdm := (List.mem_filter.mp hd).1
+  cases hsn : d.sense with
+  | none => rfl
+  | some s =>
+    obtain ⟨sr, hsr, hsrr⟩ := List.mem_map.mp (hfk d hdm s hsn)
+    simp only
+    rw [hs, find?_append_of_exists _ _ _ ⟨sr, hsr, by simp [hsrr]⟩]
+
+structure SenseRelFK (db : Db) : Prop where
+  relType : ∀ o ∈ db.senserels, o.type ∈ db.reltypes.map (·.1)
+  relTarget : ∀ o ∈ db.senserels, o.target ∈ db.senses.map (·.rowid)
+  relLex : ∀ o ∈ db.senserels, o.lex ∈ db.lexicons.map (·.rowid)
+  senseEntry : ∀ o ∈ db.senses, o.entry ∈ db.entries.map (·.rowid)
+  senseSynset : ∀ o ∈ db.senses, o.synset ∈ db.synsets.map (·.rowid)
+
+/-- the lexicons table after one add: the old rows and the new lexicon's row -/
+theorem addLexicon_lexicons {norm : String → String} {dr : Nat} {db db' : Db} {l : Lexicon} (t : AddTrace norm dr db db' l) :
+    ∃ lrow, db'.lexicons = db.lexicons ++ [lrow] := by
+  obtain ⟨hL1, _, _⟩ := C01_lexicon_row _ _ _ _ _ t.hlex
+  let c : Ctx := ⟨t.lexid, t.extid, externalIds l⟩
+  let π : Db → List RLexicon := fun b => b.lexicons
+  have k2 : π t.d2 = π t.d1 := keepsGF_insertSynsets π l c (fun p => by keepsG_step presupStep)
+    (by keepsG_step synsetStep) (by keepsG_step piliStep) _ _ t.hsyn
+  have k3 : π t.d3 = π t.d2 := keepsGF_insertEntries π l c (by keepsG_step entryStep) _ _ t.hent
+  have k4 : π t.d4 = π t.d3 := keepsGF_insertForms π (fun _ _ => rfl) norm l c _ _ t.hform
+  have k5 : π t.d5 = π t.d4 := keepsGF_insertPronsTags π l c (fun _ _ _ => by keepsG_step pronStep)
+    (fun _ _ _ => by keepsG_step tagStep) _ _ t.hpt
+  have k6 : π t.d6 = π t.d5 := keepsGF_insertSenses π l c dr (fun _ => by keepsG_step senseStep)
+    (by keepsG_step adjStep) (fun _ => by keepsG_step countStep) _ _ t.hsen
+  have k7 : π t.d7 = π t.d6 := keepsGF_insertSbs π t.sbs c (by keepsG_step sbStep) (fun _ => by keepsG_step sbSenseStep) _ _ t.hsb
+  have k8 : π t.d8 = π t.d7 := keepsGF_insertRelations π l c (fun _ => by keepsG_step synRelStep)
+    (by keepsG_step senseRelStep) (by keepsG_step senseSynRelStep) _ _ t.hrel
+  have k9 : π db' = π t.d8 := keepsGF_insertDefsExamples π l c (fun _ => by keepsG_step defStep)
+    (fun _ => by keepsG_step senseExampleStep) (fun _ => by keepsG_step synsetExampleStep) _ _ t.hdx
+  refine ⟨⟨t.lexid, l.id, l.label, l.language, l.email, l.license, l.version, l.url, l.citation, l.logo, l.md⟩, ?_⟩
+  show π db' = _
+  rw [k9, k8, k7, k6, k5, k4, k3, k2]
+  exact hL1
+
+/-- **C04, frame for sense relations, end to end** -/
+theorem C04_frame_sense_relations_end_to_end (norm : String → String) (dr : Nat) (db db' : Db) (l : Doc.Lexicon)
+    (h : addLexicon norm dr db l = .ok db') (S : List Nat)
+    (hout : nextId (db.lexicons.map (·.rowid)) ∉ S) (fk : SenseRelFK db)
+    (source : Nat) (types : List String) :
+    senseRelations db' source types S = senseRelations db source types S := by
+  obtain ⟨t⟩ := addLexicon_split norm dr db db' l h
+  obtain ⟨hT, rows, hrows, hF⟩ := addLexicon_senserel_table t
+  obtain ⟨hE, _, srows, hS, _, _⟩ := addLexicon_sense_table t
+  obtain ⟨yrows, iextra, hY, _, hI⟩ := C01.addLexicon_synset_tables norm dr db db' l h
+  have hlexid : t.lexid = nextId (db.lexicons.map (·.rowid)) := (insertLexicon_frame _ _ _ _ _ t.hlex).2.2.1
+  obtain ⟨lrow, hL⟩ := addLexicon_lexicons t
+  obtain ⟨textra, hTx⟩ : ∃ extra, db'.reltypes = db.reltypes ++ extra := by
+    rw [hT]; unfold updateLookups; exact foldl_lookupInsert_prefix _ _
+  -- entries: only appended to
+  obtain ⟨erows, hEx⟩ : ∃ erows, db'.entries = db.entries ++ erows := by
+    obtain ⟨_, _, g3⟩ := insertLexicon_frame2 _ _ _ _ _ t.hlex
+    have e2 := (keepsF_insertSynsets l _ _ _ t.hsyn).1
+    have h3 := t.hent
+    unfold insertEntries at h3
+    obtain ⟨_, er, he, _⟩ := foldlM_rows1 (fun d => d.entries) (fun _ => ()) (entryStep _) (fun _ _ _ => True)
+      (fun b a b' hh => by
+        obtain ⟨r, hb, _⟩ := entryStep_ok _ b b' a hh
+        exact ⟨rfl, r, by rw [hb], trivial⟩) _ _ _ h3
+    exact ⟨er, by rw [hE, he, e2, g3]; rfl⟩
+  rw [senseRelations_eq, senseRelations_eq, hrows, List.filterMap_append]
+  have hnew : rows.filterMap (srelF db' source types S) = [] := by
+    rw [List.filterMap_eq_nil_iff]
+    intro r hr
+    have hl : r.lex = t.lexid := Forall2.forall_right (fun _ _ hh => hh.1) hF r hr
+    unfold srelF
+    have : inLex S r.lex = false := by
+      rw [hl, hlexid]; simpa [inLex] using hout
+    simp [this]
+  rw [hnew, List.append_nil]
+  congr 1
+  apply filterMap_congr_mem
+  intro o ho
+  unfold srelF
+  have e1 : typeOk db' types o.type = typeOk db types o.type := by
+    unfold typeOk
+    rw [hTx, lookupName_append _ _ _ (fk.relType o ho)]
+  obtain ⟨tg, htg, htgr⟩ := List.mem_map.mp (fk.relTarget o ho)
+  have e2 : db'.senses.find? (fun x => x.rowid == o.target) = db.senses.find? (fun x => x.rowid == o.target) := by
+    rw [hS]; exact find?_append_of_exists _ _ _ ⟨tg, htg, by simp [htgr]⟩
+  have e3 : lexSpec db' o.lex = lexSpec db o.lex := by
+    unfold lexSpec
+    obtain ⟨lx, hlx, hlxr⟩ := List.mem_map.mp (fk.relLex o ho)
+    rw [hL, find?_append_of_exists _ _ _ ⟨lx, hlx, by simp [hlxr]⟩]
+  rw [e1, e2, e3]
+  cases hfind : db.senses.find? (fun x => x.rowid == o.target) with
+  | none => cases typeOk db types o.type <;> rfl
+  | some tgt =>
+    have htm : tgt ∈ db.senses := List.mem_of_find?_eq_some hfind
+    have e4 : senseData db' tgt = senseData db tgt := by
+      unfold senseData
+      obtain ⟨en, hen, henr⟩ := List.mem_map.mp (fk.senseEntry tgt htm)
+      obtain ⟨sy, hsy, hsyr⟩ := List.mem_map.mp (fk.senseSynset tgt htm)
+      rw [hEx, hY, find?_append_of_exists _ _ _ ⟨en, hen, by simp [henr]⟩,
+        find?_append_of_exists _ _ _ ⟨sy, hsy, by simp [hsyr]⟩]
+    cases typeOk db types o.type with
+    | none => rfl
+    | some n => simp only [e4]
+
 end WnVerif.Props.C04
